@@ -127,6 +127,58 @@ def run(repo: Repo, chk: Check):
         chk.judge("R04.c", key, co is not None and len(co) == 1 and list(co.values()) == [1] and k == 1,
                   f"interval end is {norm(hi)}: expected <last line> + 1 (half-open), so that a value read on its last line is still live there",
                   {"end": norm(hi)}, f"{t.path}:{c.lineno} in IC10Register.lifetime")
+    # a temporary (intermediate) lives for its whole STATEMENT: an instruction emitted for an earlier line of a multi-line statement may
+    # still read a value while a temporary of a later line is written, so both bounds are those of the statement node
+    for c in ranges:
+        ids = live_ids(lcfg, c)
+        if not ids or not any(p_ and norm(t_).endswith("_is_intermediate") for t_, p_ in guard_atoms(lcfg, ids[0])):
+            continue
+        lo, hi = c.args[0], c.args[1]
+        key = "types:IC10Register.lifetime:a temporary lives from the first to the last line of its statement"
+
+        def stmt_node(e):
+            """is the node whose line is taken the enclosing statement?  -> True / False / None (not understood)"""
+            if isinstance(e, ast.BinOp):
+                e = e.left
+            if not (isinstance(e, ast.Attribute) and e.attr in ("lineno", "end_lineno", "fromlineno", "tolineno")):
+                return None
+            base = e.value
+            if isinstance(base, ast.Call) and isinstance(base.func, ast.Attribute) and base.func.attr == "statement":
+                return True
+            if isinstance(base, ast.Name):
+                ds = lrd.at(ids[0], base.id)
+                kinds = set()
+                for d in ds:
+                    v_ = d.value
+                    if d.kind != "assign" or v_ is None or d.index:
+                        kinds.add(None)
+                    elif isinstance(v_, ast.Call) and isinstance(v_.func, ast.Attribute) and v_.func.attr == "statement":
+                        kinds.add("stmt")
+                    elif norm(v_) == f"{base.id}.parent":
+                        kinds.add("walk")
+                    elif "nodes_writing" in norm(v_) or "nodes_reading" in norm(v_):
+                        kinds.add("raw")
+                    else:
+                        kinds.add(None)
+                if None in kinds:
+                    return None
+                if kinds == {"stmt"}:
+                    return True
+                if "walk" in kinds:
+                    # walked up while 'not <node>.is_statement'
+                    return any(isinstance(w, ast.While) and norm(w.test) == f"not {base.id}.is_statement" for w in ast.walk(lf))
+                if kinds == {"raw"}:
+                    return False
+            if isinstance(base, ast.Subscript) and ("nodes_writing" in norm(base) or "nodes_reading" in norm(base)):
+                return False
+            return None
+        a, b = stmt_node(lo), stmt_node(hi)
+        if a is None or b is None:
+            raise AnalysisError(f"IC10Register.lifetime: the interval of a temporary ({norm(c)[:60]}) is not understood")
+        chk.judge("R04.c", key, a and b,
+                  f"the interval of a temporary is {norm(c)[:70]}: {'its start' if not a else 'its end'} is taken from the expression node itself, not from the statement around it. "
+                  f"In a statement that spans several lines a temporary of a later line shares its register with a value last read on an earlier line of the same statement",
+                  {"start_is_statement": a, "end_is_statement": b}, f"{t.path}:{c.lineno} in IC10Register.lifetime")
     # release test in assign_colors
     ccfg, crd = fn_ctx(ac)
     wc = f"{ra.path}:{ac.lineno} in assign_colors"
@@ -437,6 +489,10 @@ def rule_functions_below_modules(repo, chk, R):
     state, why = _interpreted_caller_sets(af)
     if state is not None:
         got = sorted(state.get("func", ()))
+        chk.judge(R, "register_assignment:assign_registers:every call site makes its scope a caller of the function", "CALLS" in state["func"],
+                  f"the callers of a function scope are guaranteed to contain {got or 'nothing'}: the scopes of the call sites are entered only under a condition (or not at all), so "
+                  f"a function can be processed before a function that calls it and be given registers that are live across that call",
+                  {"callers_guaranteed": got, "by": "abstract interpretation of called_from"}, wa)
         chk.judge(R, "register_assignment:assign_registers:every function scope is a callee of every library module scope", "MODS" in state["func"],
                   f"the callers of a function scope are guaranteed to contain {got or 'nothing'} (CALLS = its call sites, MODS = all library modules): expected the set of ALL "
                   f"library modules for every function. Module-level values live for the whole program, so a function that skips one module's scope can be given a register "
@@ -571,6 +627,15 @@ def _derives_from_range(e, nid, rd, single, depth=0):
 
 
 # ---------------------------------------------------------------------- R04.d
+def rule_loop_widening(repo, chk):
+    """R04.d as a rule of its own (also run by C01 as R01.r): a value that is live in a loop keeps its register for the whole loop."""
+    t = repo.mod("types")
+    lf = t.func("IC10Register.lifetime")
+    chk.saw("types", "IC10Register.lifetime")
+    lcfg, lrd = fn_ctx(lf)
+    r04d(repo, chk, t, lf, lcfg, lrd, f"{t.path}:{lf.lineno} in IC10Register.lifetime")
+
+
 def r04d(repo, chk, t, lf, lcfg, lrd, wl):
     """Accesses are widened to the loops that repeat them before line numbers are taken."""
     def resolve(e, at):
